@@ -8,7 +8,7 @@ use crate::plan::PlanBH;
 use crate::tabledrv::{TableDrv, TW_GENERAL};
 use crate::util::{Json, Rng};
 
-pub const C06_ELEMS: [&str; 6] = ["P8", "T24", "Z", "B1", "L200", "B3"];
+pub const C06_ELEMS: [&str; 7] = ["P8", "T24", "Z", "Z8", "B1", "L200", "B3"];
 
 pub fn run(c: &mut Ctx) {
     c.run_scenarios(|c, idx, rng| {
